@@ -25,7 +25,7 @@ from asphalt.core import Context, context_teardown, start_service_task  # noqa: 
 
 import symsched
 
-KIND = ["sync", "async+checkpoint", "sync-returning-awaitable"]
+KIND = ["sync", "async def+checkpoint", "sync returning an awaitable object (__await__)"]
 RAISES = ["ok", "Exception", "BaseException"]
 ENDS = ["return", "Exception", "BaseException", "ExceptionGroup"]
 
@@ -88,14 +88,20 @@ def h1(a, tier):
                 excs[i] = CbBase(i)
                 raise excs[i]
 
-        if kinds[i] == 0:
+        # quick tier has two kinds; "async" alternates between a coroutine function and a
+        # plain callable returning a non-coroutine awaitable object, so that both forms of
+        # "any awaitable it returns" are exercised.  thorough has all three as own kinds.
+        kind = kinds[i]
+        if quick and kind == 1 and i % 2 == 0:
+            kind = 2
+        if kind == 0:
 
             def cb(*args):
                 log.append(("begin", i))
                 received[i] = args
                 finish()
 
-        elif kinds[i] == 1:
+        elif kind == 1:
 
             async def cb(*args):
                 log.append(("begin", i))
@@ -105,15 +111,15 @@ def h1(a, tier):
 
         else:
 
+            class Aw:
+                def __await__(self):
+                    yield from anyio.sleep(0).__await__()
+                    finish()
+
             def cb(*args):
                 log.append(("begin", i))
                 received[i] = args
-
-                async def rest():
-                    await anyio.sleep(0)
-                    finish()
-
-                return rest()
+                return Aw()
 
         return cb
 
@@ -145,7 +151,7 @@ def h1(a, tier):
     _, outcome, _k = run(main)
     summary = {
         "callbacks": [
-            {"kind": KIND[kinds[i]], "raises": RAISES[raises[i]], "pass_exception": bool(passexc[i])}
+            {"kind": KIND[2 if (quick and kinds[i] == 1 and i % 2 == 0) else kinds[i]], "raises": RAISES[raises[i]], "pass_exception": bool(passexc[i])}
             for i in range(n)
         ],
         "block_ends_with": ENDS[end],
@@ -186,7 +192,7 @@ H1 = Harness(
     cube=lambda tier: 5 if tier == "quick" else 6,
     title="order / faults / pass_exception / outcome for n<=3 directly registered callbacks",
     bound_text=lambda tier: (
-        "n<=3 callbacks x kind{sync,async+checkpoint" + ("" if tier == "quick" else ",sync returning awaitable")
+        "n<=3 callbacks x kind{sync,async" + (" (coroutine function at odd / awaitable object at even positions)" if tier == "quick" else " def,sync returning an awaitable object")
         + "} x raises{no,Exception,BaseException} x pass_exception x block end{return,Exception,BaseException"
         + ("" if tier == "quick" else ",ExceptionGroup") + "} x {root,nested} x {plain, inside an outer except handler}"
     ),
